@@ -18,6 +18,7 @@ type Mutex struct {
 
 // Lock locks m.
 func (m *Mutex) Lock() {
+	vrt.ShimOps++ // (unsynchronised counter: only "zero or not" matters)
 	if vrt.Active() {
 		m.st.Lock()
 	} else {
